@@ -4,6 +4,7 @@
 import Driver.Codec
 import Driver.Conv
 import RevalModel.Impl.Ser
+import RevalModel.Spec.Json
 
 namespace Reval.Codec
 open Reval
@@ -46,6 +47,27 @@ partial def decSerVal : Sexp → Option SerVal
       pure (.structVariant n va fs)
   | .list [.atom "sfail", m] => (atomStr m).map .fail
   | _ => none
+
+partial def encJson : Json → String
+  | .null => "(jnull)"
+  | .bool b => if b then "(jbool 1)" else "(jbool 0)"
+  | .int n => "(jint " ++ toString n ++ ")"
+  | .float f => "(jfloat " ++ natHex16 f.bits.toNat ++ ")"
+  | .str s => "(jstr " ++ hex s ++ ")"
+  | .arr xs => "(jarr" ++ String.join (xs.map (fun x => " " ++ encJson x)) ++ ")"
+  | .obj kvs => "(jobj" ++ String.join (kvs.map (fun (k, v) => " (" ++ hex k ++ " " ++ encJson v ++ ")")) ++ ")"
+  | .unrep => "(junrep)"
+
+/-- `json\tSERVAL` → the model of `serde_json::to_value` on the input, TAB, the JSON reading of the model's image
+    (`-` when the serializer fails) -/
+def handleJson (arg : String) : String :=
+  match parse arg >>= decSerVal with
+  | some v =>
+    encJson (JsonSpec.jsonOf v) ++ "\t" ++
+      (match Ser.serialize v with
+       | .ok x => encJson (JsonSpec.toJson x)
+       | _ => "-")
+  | none => "bad-request json"
 
 def handleSer (arg : String) : String :=
   match parse arg >>= decSerVal with
